@@ -173,6 +173,12 @@ Definition P_b (c : case) : bool :=
   (negb (gates_released (c_cmds c)) ||
    (forallb o_fin (c_obs c)                                  (* every request returns *)
     && c_lock_free c                                         (* no lock left held, no writer wedged *)
+    && (c_timeouts c =? 0)                                   (* ... and returns without waiting for anything but the lock's holders:
+                                                                after every command the requests all returned or were held by
+                                                                the harness (account gate inside the read lock, relay sitting on
+                                                                the POST outside it), or a refresh waited for a request held
+                                                                INSIDE the read lock; nothing ever waited, for a whole watchdog
+                                                                period, for a request held by a relay *)
     && (c_stress c || values_ok (c_url c) (c_init c) (combine sps (c_obs c))))).   (* answers come from the last good configuration *)
 
 Definition mismatches (cs : list case) : list N := failing_ids c_id agree cs.
@@ -181,15 +187,17 @@ Definition violations (cs : list case) : list N := failing_ids c_id P_b cs.
 (* what P_b = true means, at least *)
 Lemma P_b_sound (c : case) :
   P_b c = true -> gates_released (c_cmds c) = true ->
-  (forall o, In o (c_obs c) -> o_fin o = true) /\ c_lock_free c = true /\ c_crashed c = false /\ c_panics c = 0.
+  (forall o, In o (c_obs c) -> o_fin o = true) /\ c_lock_free c = true /\ c_crashed c = false /\ c_panics c = 0 /\
+  c_timeouts c = 0.
 Proof.
   unfold P_b. intros H Hg. rewrite Hg in H. cbn [negb orb] in H.
   apply andb_true_iff in H as [H H']. apply andb_true_iff in H as [H Hp]. apply andb_true_iff in H as [_ Hc].
-  apply andb_true_iff in H' as [H _]. apply andb_true_iff in H as [H1 H2].
-  split; [|split; [exact H2|split]].
+  apply andb_true_iff in H' as [H _]. apply andb_true_iff in H as [H Ht]. apply andb_true_iff in H as [H1 H2].
+  split; [|split; [exact H2|split; [|split]]].
   - rewrite forallb_forall in H1. exact H1.
   - destruct (c_crashed c); [discriminate|reflexivity].
   - apply Nat.eqb_eq. exact Hp.
+  - apply Nat.eqb_eq. exact Ht.
 Qed.
 
 (* a scenario on which the process died violates the property whatever else was observed *)
